@@ -150,7 +150,7 @@ Covers(n, off) ==
          [] n.t = "arr" -> \E j \in 1..Len(n.v) : Covers(n.v[j], off)
          [] OTHER -> FALSE
 
-\* deepest token whose extent contains off, as <<path, role, s, e>>
+\* deepest token whose extent contains off, as <<path, role, s, e, is-container>>
 RECURSIVE Deepest(_, _, _)
 Deepest(n, path, off) ==
   CASE n.t = "obj" ->
@@ -158,18 +158,18 @@ Deepest(n, path, off) ==
              VJ == {j \in 1..Len(n.kv) : Covers(n.kv[j][2], off)}
          IN IF KJ # {}
             THEN LET j == CHOOSE j \in KJ : TRUE
-                 IN <<Append(path, KeyC(n.kv[j][1].cp)), "key", n.kv[j][1].s, n.kv[j][1].e>>
+                 IN <<Append(path, KeyC(n.kv[j][1].cp)), "key", n.kv[j][1].s, n.kv[j][1].e, FALSE>>
             ELSE IF VJ # {}
             THEN LET j == CHOOSE j \in VJ : TRUE
                  IN Deepest(n.kv[j][2], Append(path, KeyC(n.kv[j][1].cp)), off)
-            ELSE <<path, "val", n.s, n.e>>
+            ELSE <<path, "val", n.s, n.e, TRUE>>
     [] n.t = "arr" ->
          LET VJ == {j \in 1..Len(n.v) : Covers(n.v[j], off)}
          IN IF VJ # {}
             THEN LET j == CHOOSE j \in VJ : TRUE
                  IN Deepest(n.v[j], Append(path, IdxC(j - 1)), off)
-            ELSE <<path, "val", n.s, n.e>>
-    [] OTHER -> <<path, "val", n.s, n.e>>
+            ELSE <<path, "val", n.s, n.e, TRUE>>
+    [] OTHER -> <<path, "val", n.s, n.e, FALSE>>
 
 \* ------------------------------------------------------------------------
 \* well-formed layout: real spans are non-empty, children lie inside a real
